@@ -252,6 +252,11 @@ func (m *Manager) createSignedDataToSubmit(ctx context.Context) ([]*types.Signed
 
 	for _, data := range dataList {
 		if len(data.Txs) == 0 {
+			// Empty data is never published. If nothing non-empty precedes it, it is not pending
+			// either: advance the watermark so that empty blocks do not count against the pending limit.
+			if len(signedDataToSubmit) == 0 && data.Metadata != nil {
+				m.pendingData.setLastSubmittedDataHeight(ctx, data.Metadata.Height)
+			}
 			continue
 		}
 		signature, err := m.getDataSignature(data)
